@@ -31,6 +31,7 @@ CONSTANTS Kinds,      \* kinds of objects 1..Len(Kinds): "sock" | "pipeR" | "pip
           BUG_StaleTimer,       \* TRUE: timer handler fires without checking that the timerfd really expired
           BUG_CancelAfterClose, \* TRUE: Timer.Cancel after Close resets the state to ready
           BUG_RegLeak,          \* TRUE: a failed epoll registration leaves pending+1 and the interest bit set
+          BUG_ZeroDelayClearsCancel, \* TRUE: ScheduleOnce(<= 0) clears the flag that tells a running repeating callback's wrapper about a Cancel
           BUG_DelSkip           \* TRUE: poller.Del skips the write direction when removing the read direction fails
 
 VARIABLES
@@ -285,7 +286,18 @@ TSched(t, rep, d) ==
   /\ CanCmd /\ (IF rep = 1 THEN "trep" ELSE "tonce") \in Cmds
   /\ (Class = "runpending" => stack = <<>>)
   /\ ncmd' = ncmd + 1
-  /\ IF tst[t] = "ready"
+  /\ IF d = 0 /\ rep = 1
+       THEN \* ScheduleRepeating(<= 0): refused
+            /\ UNCHANGED <<tcan, tint, pending, tarmed, texp, rdy, tst, trep, thow>>
+            /\ stack' = Push(<<[Fr("tschedE", t) EXCEPT !.d = "cancelled"]>>)
+     ELSE IF d = 0 /\ tst[t] = "ready"
+       THEN \* ScheduleOnce(<= 0): the callback runs inside the call, nothing is armed, the timer stays ready
+            \* (as found the cancelled flag was cleared here as well: a Cancel made by the running repeating
+            \* callback was forgotten and the cancelled schedule re-armed - BUG_ZeroDelayClearsCancel)
+            /\ tcan' = IF BUG_ZeroDelayClearsCancel THEN [tcan EXCEPT ![t] = FALSE] ELSE tcan
+            /\ UNCHANGED <<tint, pending, tarmed, texp, rdy, tst, trep, thow>>
+            /\ stack' = Push(<<Fr("tnow", t), [Fr("tschedE", t) EXCEPT !.d = "nil"]>>)
+     ELSE IF tst[t] = "ready"
        THEN /\ ArmT(t, d) /\ trep' = [trep EXCEPT ![t] = IF rep = 1 THEN d ELSE 0]
             /\ stack' = Push(<<[Fr("tschedE", t) EXCEPT !.d = "nil"]>>)
        ELSE /\ UNCHANGED <<tcan, tint, pending, tarmed, texp, rdy, tst, trep, thow>>
@@ -427,6 +439,13 @@ DoTSchedE ==
   /\ stack # <<>> /\ Top.k = "tschedE"
   /\ stack' = Rest
   /\ Emit([Z EXCEPT !.ev = "TSchedE", !.t = Top.id, !.err = Top.d])
+  /\ UNCHANGED <<libvars, envvars, inpoll, batch, bi, bphase, pq, nop, ncmd, npost, needSample, drain, dpolls, done>>
+
+\* ScheduleOnce(<= 0) calls the user callback before it returns
+DoTNow ==
+  /\ stack # <<>> /\ Top.k = "tnow"
+  /\ stack' = <<CbFrame("tm", Top.id, FALSE)>> \o Rest
+  /\ Emit([Z EXCEPT !.ev = "TFireB", !.t = Top.id, !.ts = now * TickUs, !.depth = Depth, !.h = Head(tm[Top.id].open).sn])
   /\ UNCHANGED <<libvars, envvars, inpoll, batch, bi, bphase, pq, nop, ncmd, npost, needSample, drain, dpolls, done>>
 
 \* the tail of ScheduleRepeating's closure after the user callback returned
@@ -621,11 +640,11 @@ DrainStep ==
 Command ==
   /\ \/ \E o \in O : Start("R", o) \/ Start("W", o) \/ Cancel(o) \/ Close(o) \/ Open(o)
      \/ Post
-     \/ \E t \in T : TNew(t) \/ (tst[t] # "unborn" /\ (TCancel(t) \/ TClose(t) \/ (\E d \in 1..2 : TSched(t, 0, d) \/ TSched(t, 1, d))))
+     \/ \E t \in T : TNew(t) \/ (tst[t] # "unborn" /\ (TCancel(t) \/ TClose(t) \/ (\E d \in (IF "tzero" \in Cmds THEN 0..2 ELSE 1..2) : TSched(t, 0, d) \/ TSched(t, 1, d))))
   \* a top-level command is followed by a sample of the getters once it has run to completion
   /\ needSample' = (needSample \/ stack = <<>>)
 
-Auto == DoTry \/ DoRet \/ DoCancel \/ DoCloseE \/ DoTSchedE \/ DoRearm \/ DoPostLoop \/ PollStep \/ Sample
+Auto == DoTry \/ DoRet \/ DoCancel \/ DoCloseE \/ DoTSchedE \/ DoTNow \/ DoRearm \/ DoPostLoop \/ PollStep \/ Sample
 
 Next ==
   IF bad # "" \/ done THEN FALSE
@@ -662,7 +681,7 @@ PendingExact ==
 DepthBound == (Class = "chain" /\ bad = "") => Cardinality({k \in DOMAIN stack : stack[k].k = "cb"}) <= Limit + 1
 
 \* the numbering of Schedule* calls (which closure a timer holds) depends on the path, not on what can happen next
-TmView == [t \in DOMAIN tm |-> [tm[t] EXCEPT !.sn = 0, !.attsn = 0]]
+TmView == [t \in DOMAIN tm |-> [tm[t] EXCEPT !.sn = 0, !.open = [k \in DOMAIN @ |-> [@[k] EXCEPT !.sn = 0]]]]
 View == <<libvars, envvars, ctlvars, rpin, rpdone,
           <<kinds, cls, lim, base, ost, ops, csnap, TmView, posted, ranp, anomaly, rnext, bad>>>>
 
